@@ -29,6 +29,8 @@ func checkC16(c *Ctx) {
 	c.checkAvatarLinkOnlyWithDesc()
 	c.checkAvatarLinkedAfterWrite()
 	c.checkAttachmentLoopVisitsEveryEntry()
+	c.checkDeleteLoopVisitsEveryLocation()
+	c.checkLinkOwnerIsOneOfTopicOrUser()
 	c.checkHeadersBehindGates()
 }
 
